@@ -1,20 +1,26 @@
 """C05 - each shipped rewrite rule preserves semantics wherever it fires.
 
-spec/Rules.tla models one application attempt of one rewrite rule to one host model (Pick, Match,
-Check, Rewrite, Replace), per rule family over the rule's parameter tuple, twice: for the design
-(Deviations = {}) and for the implementation model (known defects as named deviations).  TLC checks
-Sound / NoFireOnUnknown on the design and DeviationsExplain on the implementation model and prints,
-for every tuple, the original meaning (Lhs), fired / raised / the replacement's value and validity.
+spec/Rules.tla models one application attempt of one rewrite rule to one host model as the steps of
+RewriteRule.try_rewrite (Pick, Match, Check, Rewrite, Replace), for 25 rule families (51 of the 53 names exported by
+onnxscript.rewriter.rules.common) over each rule's parameter tuple, twice: for the design (Deviations = {}) and for
+the implementation model (known defects as named deviations).  Tensor values are exact integers on spec/Tensor.tla
+(fixed point where fractions are needed).  TLC checks Sound / NoFireOnUnknown on the design and DeviationsExplain on the
+implementation model and prints, for every tuple, the original meaning (Lhs), fired / raised / the replacement's value
+and its validity for the declared opset, and the deviations the outcome depends on.
 
-This harness concretises every printed tuple to a real ONNX host model (gamma, one builder per
-family), applies RewriteRuleSet([rule]) of the REAL code, and judges the property on implementation
-observables only: did apply_to_model raise; if it fired: onnx.checker on the rewritten model, ORT
-(optimizations disabled) before vs after on every feed (dtype, shape, values).  The spec's
-predictions (fired, raised, both values, validity) are compared too; a difference is only a
-SPEC-MISMATCH warning.
+This harness concretises every printed tuple to a real ONNX host model (gamma, one builder per family; declared shapes
+come from the spec's AuxOf), applies RewriteRuleSet([rule]) of the REAL code, and judges the property on implementation
+observables only: did apply_to_model raise; if it fired: onnx.checker on the rewritten model, ORT (optimizations
+disabled) before vs after on every feed (same element type, same shape, equal values; a second feed changes every
+operand the model does not fix).  The spec's predictions (fired, raised, both values, validity) are compared too; a
+difference is only a SPEC-MISMATCH warning.  A property failure is attributed to a named deviation only when the code
+did exactly what the implementation model predicts on that tuple; anything else is a VIOLATION without finding id.
+
+Not covered (float kernels, would need tolerance-based replay): fuse_hardswish_rules, remove_optional_bias_from_qlinear_conv_rule,
+onnxscript.rewriter.rules.fusion.* (layer norm, rms norm, rotary embedding, gqa).
 
 VERIF_C05_MAX=<n> (optional, experiments): replay a seeded sample of n tuples.
-VERIF_C05_FAMILIES=a,b (optional): restrict to some families.
+VERIF_C05_FAMILIES=a,b (optional): restrict the replay to some families.
 """
 from __future__ import annotations
 
@@ -505,10 +511,6 @@ def build_batchnorm(p, osh, aux):
     rule = {"Gemm": m.fuse_batchnorm_into_gemm_rule, "Conv": m.fuse_batchnorm_into_conv_rule,
             "ConvTranspose": m.fuse_batchnorm_into_conv_transpose_rule}[op]
     return h, [rule]
-
-
-def sy_name(code):
-    return SYMS.get(code)
 
 
 def from_decl(decl):
@@ -1035,6 +1037,9 @@ def judge(ctx, c, ob, stats):
             finding = pick_finding(c)
         ctx.report(case, f"{fam} {json.dumps(p, sort_keys=True)}: {what}", finding=finding)
         stats["bad"] += 1
+        key = finding or "UNEXPLAINED"
+        stats.setdefault("by_deviation", {})
+        stats["by_deviation"][key] = stats["by_deviation"].get(key, 0) + 1
     for m in mism:
         stats["mismatch"] += 1
         k = f"{fam}:{m.split(':')[0]}"
@@ -1049,8 +1054,8 @@ def nontrivial(c):
 
 
 def select(ctx, cases):
-    """every tuple TLC printed; only if the quick menus ever grow beyond 30000 tuples: every tuple whose model outcome is
-    a deviation (bounded per family) plus a seeded sample of the others"""
+    """thorough: every tuple TLC printed.  quick: every tuple on which the model says the rule fires, raises or deviates,
+    plus a seeded sample (at most 250 per family) of the tuples on which it declines"""
     cases = [c for c in cases if c["lhs"]["dt"] != "ERR"]      # hosts without a defined original meaning are not generated
     fams = os.environ.get("VERIF_C05_FAMILIES")
     if fams:
@@ -1061,20 +1066,24 @@ def select(ctx, cases):
         cases = list(cases)
         rng.shuffle(cases)
         return cases[: int(mx)], False
-    if not ctx.quick or len(cases) <= 30000:
+    if not ctx.quick:
         return cases, True
     byfam = {}
     for c in cases:
         byfam.setdefault(c["fam"], []).append(c)
     out = []
+    exhaustive = True
     for f in sorted(byfam):
         cs = byfam[f]
-        rng.shuffle(cs)
-        dev = [c for c in cs if c["why"]]
-        fire = [c for c in cs if not c["why"] and nontrivial(c)]
-        rest = [c for c in cs if not c["why"] and not nontrivial(c)]
-        out += dev[:250] + fire[:450] + rest[:250]
-    return out, False
+        keep = [c for c in cs if c["why"] or nontrivial(c)]
+        rest = [c for c in cs if not (c["why"] or nontrivial(c))]
+        if len(rest) > 250:
+            rng.shuffle(rest)
+            rest = rest[:250]
+            exhaustive = False
+        out += keep + rest
+    out.sort(key=lambda c: json.dumps([c["fam"], c["p"]], sort_keys=True))
+    return out, exhaustive
 
 
 def run(ctx: core.Ctx):
@@ -1105,6 +1114,9 @@ def run(ctx: core.Ctx):
     ctx.set("per_family", per_fam)
     ctx.set("distinct_nontrivial", len(nontriv))
     ctx.set("traces_validated_against_impl", ctx.coverage.get("evaluations", 0))
+    ctx.set("property_failures_by_deviation", dict(sorted(stats.get("by_deviation", {}).items())))
+    if stats.get("by_deviation"):
+        print("C05 property failures by modelled deviation: " + json.dumps(dict(sorted(stats["by_deviation"].items()))), flush=True)
     ctx.set("model_impl_mismatches", stats["mismatch"])
     if stats["mismatch_kinds"]:
         ctx.set("model_impl_mismatch_kinds", stats["mismatch_kinds"])
@@ -1122,6 +1134,7 @@ def run(ctx: core.Ctx):
         "onnxruntime (optimizations disabled) implements the operators involved as the ONNX operator text says; it is the common judge of before and after",
         "'for all inputs' is sampled by one integer-valued test tensor per host that contains every value of -3..3 (elementwise rules), plus a second feed that changes every operand the model does not fix (graph inputs, overridable initializers)",
         "hosts ORT refuses although the operator text gives them a meaning (auto_pad SAME_* with dilations) are judged against onnx.reference, and only when it returns exactly the tensor Rules.tla computes",
+        "quick tier replays every tuple on which the model fires / raises / deviates and a seeded sample of at most 250 declining tuples per family; thorough replays every tuple",
         "signed zeros, NaN/inf inputs and float rounding (e.g. double rounding in cast_cast) are outside the integer-valued domain of the spec",
     ]
 
